@@ -1,6 +1,6 @@
 # Sizing and claim for C14 (see props/__init__.py)
 SPEC = {
-        "quick": {"rc_cases": 3000, "rc_procs": 4, "enum": True},
+        "quick": {"rc_cases": 20000, "rc_procs": 8, "enum": True},
         "thorough": {"rc_cases": 60000, "rc_procs": 8, "enum": True, "fuzz_secs": 20, "fuzz_workers": 4},
         "claim": {
             "category": "exploration",
